@@ -60,13 +60,12 @@ func c13Arm(c *Ctx, fobj *types.Func, p *Path, operand Term, ct *Cont) (good boo
 	if !matchesOperand || len(it.Args) != 1 {
 		return false, "the iteration is not a method of the operand"
 	}
-	lit, ok := it.Args[0].(TLit)
-	fl, isFl := lit.Node.(*ast.FuncLit)
-	if !ok || !isFl {
+	fl, cenv, _ := c.closureOf(it.Args[0], effs[0].Env)
+	if fl == nil {
 		return false, "the iteration is not given a function literal"
 	}
 	ps := litParams(c, fl)
-	bp := c.NewSX().RunStmts(fl.Body.List, effs[0].Env)
+	bp := c.NewSX().RunStmts(fl.Body.List, cenv)
 	if len(bp) != 1 || bp[0].Why != "" || len(bp[0].Conds()) != 0 {
 		return false, "the visitor is not a single unconditional statement"
 	}
